@@ -32,6 +32,10 @@ GStep ==
      \* another subsystem (chain arbitrator, chain watcher) touches the channel's status through a handle it
      \* loaded long ago: nothing about the commitment state may change on disk (C02)
      \/ \E p \in Party : Len(hist) % 9 = 4 /\ UNCHANGED vars /\ Rec(Ev("StaleTouch", p, 0, 0))
+     \* the link re-reads the channel state of a LIVE channel from the database (channelLink.UpdateShortChanID ->
+     \* OpenChannel.Refresh, when the funding tx of a zero-conf channel confirms): the state machine continues on the
+     \* refreshed objects; nothing about the commitment state changes, in memory or on disk (C02, C06)
+     \/ \E p \in Party : Len(hist) % 9 = 7 /\ LiveRefresh(p) /\ Rec(Ev("LiveRefresh", p, 0, 0))
 GNext == Len(hist) < MaxLen /\ GStep
 GSpec == GInit /\ [][GNext]_<<vars, hist>>
 
